@@ -1175,7 +1175,8 @@ func (g *FunctionGenerator[V]) GenerateFunc(ast parser2.AST, gc GeneratorContext
 			}, pure, nil
 		}
 	case *parser2.FunctionCall:
-		if id, ok := a.Func.(*parser2.Ident); ok {
+		// a local binding hides a static function of the same name
+		if id, ok := a.Func.(*parser2.Ident); ok && !id.Local {
 			if fun, ok := g.staticFunctions[id.Name]; ok {
 				if fun.argsNumberNotMatching(len(a.Args)) {
 					return nil, false, id.Error(fun.argsNumberNotMatchingError(id.Name, len(a.Args)))
